@@ -129,6 +129,22 @@ def _src_ast(fn):
     return node
 
 
+def _has_quantifier(e, _seen=None):
+    seen = set() if _seen is None else _seen
+    stack = [e]
+    while stack:
+        x = stack.pop()
+        i = x.get_id()
+        if i in seen:
+            continue
+        seen.add(i)
+        if z3.is_quantifier(x):
+            return True
+        if z3.is_app(x):
+            stack.extend(x.children())
+    return False
+
+
 class Ctx:
     """One path of one function."""
 
@@ -158,7 +174,8 @@ class Ctx:
         if z3.is_false(cond):
             raise PathEnd()
         self.pc.append(cond)
-        self.solver.add(cond)
+        if not _has_quantifier(cond):
+            self.solver.add(cond)  # feasibility pruning uses the quantifier-free part only (sound: prunes less)
 
     def feasible(self, cond=None):
         r = self.solver.check(*([cond] if cond is not None else []))
